@@ -260,7 +260,11 @@ func genLogCase(r *core.Rand, tier string) []string {
 		j := r.Intn(i + 1)
 		ms[i], ms[j] = ms[j], ms[i]
 	}
-	return []string{"log " + strings.Join(ms, " ")}
+	var ops []string
+	for _, m := range ms {
+		ops = append(ops, "m "+m)
+	}
+	return append(ops, "run")
 }
 
 // ---- byte strings for the reader -------------------------------------------------------------
@@ -408,7 +412,7 @@ func genReadInput(r *core.Rand) []byte {
 }
 
 func (P) Gen(r *core.Rand, tier string, emit func([]string)) {
-	logs, reads := 150, 150
+	logs, reads := 400, 300
 	if tier == "thorough" {
 		logs, reads = 2500, 6000
 	}
